@@ -104,7 +104,13 @@ func genOptions(c *evalCase) {
 		c.tag = "alt"
 	case 1, 2:
 		c.unkSet = true
-		switch rng.Intn(6) {
+		switch rng.Intn(9) {
+		case 6:
+			c.unk = json.Number(pick(rng, []string{"5", "1.5", "x", "0"}))
+		case 7:
+			c.unk = NInt(1)
+		case 8:
+			c.unk = Dur(5)
 		case 0:
 			c.unk = nil
 		case 1:
